@@ -93,22 +93,30 @@ Definition close_src (s : src) : src :=
 
 (* func (mr *MultiReaderCloser) Read(p []byte): the for loop over mr.readers.  [err == io.EOF]
    is a comparison with the VALUE: a failure that wraps io.EOF ([EFail FWrapEOF]) is an error like
-   any other and stays at the head of the list. *)
+   any other and stays at the head of the list.  The one error identity the method knows is
+   http.ErrBodyReadAfterClose (checked with errors.Is, so also when wrapped). *)
 Fixpoint multi_read_loop (want : nat) (rs : list src) (gone : list src) : list N * err * multi :=
   match rs with
   | [] => ([], EEOF, {| mreaders := []; mgone := gone |})
   | r :: rest =>
       let '(bs, e, rd') := read want (sreader r) in
       let r' := {| sreader := rd'; closable := closable r |} in
+      (* the head source is done and leaves the list as [r'']: go on with the next one if it
+         delivered nothing on this call, else return its bytes (EOF only if it was the last) *)
+      let done := fun r'' : src =>
+        match bs with
+        | [] => multi_read_loop want rest (gone ++ [r''])
+        | _ => (bs, match rest with [] => EEOF | _ => ENil end,
+                {| mreaders := rest; mgone := gone ++ [r''] |})
+        end in
+      let keep := (bs, e, {| mreaders := r' :: rest; mgone := gone |}) in
       match e with
-      | EEOF =>
-          let r'' := close_src r' in
-          match bs with
-          | [] => multi_read_loop want rest (gone ++ [r''])
-          | _ => (bs, match rest with [] => EEOF | _ => ENil end,
-                  {| mreaders := rest; mgone := gone ++ [r''] |})
-          end
-      | _ => (bs, e, {| mreaders := r' :: rest; mgone := gone |})
+      | EEOF => done (close_src r')
+      | EFail k =>
+          (* [errors.Is(err, http.ErrBodyReadAfterClose)]: "we consider that the same as io.EOF" -
+             the source is dropped, NOT closed (it is closed already, the error says) *)
+          if is_body_closed k then done r' else keep
+      | _ => keep
       end
   end.
 
